@@ -22,7 +22,33 @@
 (*           its complete position (as x, zero shift) and orientation,     *)
 (*           keep tomogram number and class, and carry the subtomogram     *)
 (*           number in geom3.                                              *)
-(* so that a defect of one property never raises the other's alarm.        *)
+(*   "spatial" (C09): the four spatial filters (trim, oob, mask_clean,      *)
+(*           points_clean) must keep exactly the rows SpatialFilter.tla     *)
+(*           keeps when its filter is applied to the previous logged state, *)
+(*           with SpatialFilter's coordinates, and every surviving row      *)
+(*           keeps all its other fields.  (The open finding of C09 - a      *)
+(*           particle outside through a lower face only is kept - is kept   *)
+(*           out of the way: the harness does not make an oob call on a     *)
+(*           state that contains such a particle, and a step that starts    *)
+(*           from one is not judged here.)                                  *)
+(*   "sym"  (C10): split_in_asymmetric_subunits for the orders that are     *)
+(*           exact on the cube group (C1, C2, C4) must yield SymExpand's    *)
+(*           subunits of the previous logged state: n per parent, index     *)
+(*           1..n, parent recorded, orientation R.Rz(360 j/n), complete     *)
+(*           position centre + R_out.s, integral x with |shift| <= 1/2,     *)
+(*           unique numbers, inherited fields (either start of the index).  *)
+(*   The scope "set" also judges the read-only step `query`                *)
+(*           (split_by_feature / get_unique_values on the current state):   *)
+(*           the parts are a partition of the CURRENT state, the values its *)
+(*           distinct values, and the state is unchanged.                   *)
+(* so that a defect of one property never raises the other's alarm.  A step *)
+(* of another scope only re-synchronises the state (st' = logged state).    *)
+(*                                                                         *)
+(* Harness steps that are named but not judged: the re-tagging after a    *)
+(* format round trip and after a symmetry expansion (e.next), and - before *)
+(* every spatial filter - setting the live position / shift columns to the *)
+(* exact lattice values of the logged state (the projection accepts 1e-9,  *)
+(* the filters compare with exact faces, radii and voxel edges).           *)
 (*                                                                         *)
 (* A logged row is [sid, tomo, obj, cls, score, tag, x, s, r] with x, s on *)
 (* the 1/8-voxel lattice and r a cube-group code.                          *)
@@ -33,14 +59,16 @@ CONSTANT Scope
 
 Traces == ndJsonDeserialize(IOEnv.TRACE_FILE)
 
-VARIABLES tid, l, st, saved, ok, clause
-vars == <<tid, l, st, saved, ok, clause>>
+VARIABLES tid, l, st, saved, ok, clause, judged
+vars == <<tid, l, st, saved, ok, clause, judged>>
 
 DimFun == (1 :> 48) @@ (2 :> 64) @@ (3 :> 40)
 
 P == INSTANCE Pose WITH InitPoses <- {}, Shifts <- {}, Factors <- {}, DimZ <- DimFun, Rots <- {},
                         MaxDepth <- 0, EmitMode <- "none", ps <- <<>>, op <- <<>>, d <- 0, hist <- <<>>
 S == INSTANCE MotlSetOps
+SF == INSTANCE SpatialFilter WITH Cases <- {}, cs <- <<>>, nc <- 0, prev <- <<>>, res <- <<>>
+SE == INSTANCE SymExpand WITH Cases <- {}, cs <- <<>>, done <- FALSE, outs <- <<>>
 
 Events == Traces[tid].ev
 
@@ -115,6 +143,91 @@ RelionStepOK(e) ==
               /\ got.s = <<0, 0, 0>>
               /\ got.R = was.R
 
+\* ---- spatial filters (C09) -------------------------------------------------------------------
+SpatialNames == {"trim", "oob", "mask_clean", "points_clean"}
+SeqRange(q) == { q[i] : i \in DOMAIN q }
+TagsOK(T) == /\ \A k \in DOMAIN T : T[k].tag >= 0
+             /\ Cardinality({ T[k].tag : k \in DOMAIN T }) = Len(T)
+
+\* the logged row as a SpatialFilter particle (identified by its tag)
+Part(r) == [id |-> r.tag, t |-> r.tomo, x |-> r.x, s |-> r.s]
+DimsOf(d) == [t \in { d[k][1] : k \in DOMAIN d } |-> LET k == CHOOSE k \in DOMAIN d : d[k][1] = t IN <<d[k][2], d[k][3], d[k][4]>>]
+Box3(lo, hi) == { <<i, j, k>> : i \in lo[1]..hi[1], j \in lo[2]..hi[2], k \in lo[3]..hi[3] }
+\* a logged mask: <<tomogram, shape, lo, hi, inv>>: zero voxels = the box lo..hi, or (inv = 1) everything but the box
+MaskOf(m) == [shape |-> m[2],
+              zero |-> IF m[5] = 0 THEN Box3(m[3], m[4])
+                       ELSE Box3(<<0, 0, 0>>, <<m[2][1] - 1, m[2][2] - 1, m[2][3] - 1>>) \ Box3(m[3], m[4])]
+SpatialOp(e) ==
+    CASE e.name = "oob" -> [name |-> "oob", kind |-> e.kind, box |-> e.box]
+      [] e.name = "trim" -> [name |-> "trim", start |-> e.start, end |-> e.end]
+      [] e.name = "points_clean" -> [name |-> "points", r |-> e.r,
+                                     pts |-> { [t |-> q[1], pos |-> <<q[2], q[3], q[4]>>] : q \in SeqRange(e.pts) }]
+      [] e.name = "mask_clean" -> [name |-> "mask", form |-> e.form, tl |-> SeqRange(e.tl),
+                                   masks |-> [t \in { m[1] : m \in SeqRange(e.masks) } |->
+                                                 MaskOf(CHOOSE m \in SeqRange(e.masks) : m[1] = t)]]
+SpatialCase(e) == [id |-> 0, ps |-> [k \in DOMAIN st |-> Part(st[k])],
+                   dims |-> IF e.name = "oob" THEN DimsOf(e.dims) ELSE <<>>, op |-> SpatialOp(e)]
+
+\* not judged: ambiguous under SpatialFilter (mask index conventions), tags unusable, or - oob - a particle that is
+\* outside through a lower face only (the open finding of C09, see the module comment)
+SpatialJudged(e) ==
+    /\ TagsOK(st)
+    /\ ~SF!Ambiguous(SpatialCase(e))
+    /\ e.name = "oob" => \A k \in DOMAIN st : SF!StatusOOB(SpatialCase(e), Part(st[k])) # "lower"
+
+\* exactly SpatialFilter's survivors, with SpatialFilter's coordinates (C09_ExactInsideSet)
+SpatialSetOK(e) ==
+    LET want == SF!Result(SpatialCase(e)).ps
+    IN  /\ Len(e.post) = Len(want)
+        /\ { e.post[i].tag : i \in DOMAIN e.post } = { want[k].id : k \in DOMAIN want }
+\* every surviving row is the row of the previous state with that tag: all fields kept, x as SpatialFilter says
+SpatialUntouched(e) ==
+    LET want == SF!Result(SpatialCase(e)).ps
+    IN  \A i \in DOMAIN e.post :
+           \E k \in DOMAIN st : \E w \in DOMAIN want :
+              /\ st[k].tag = e.post[i].tag /\ want[w].id = e.post[i].tag
+              /\ SameIdentity(st[k], e.post[i])
+              /\ e.post[i].r = st[k].r /\ e.post[i].s = st[k].s
+              /\ e.post[i].x = want[w].x
+
+\* ---- cyclic symmetry expansion (C10) ---------------------------------------------------------
+Parents == [k \in DOMAIN st |-> [sid |-> st[k].sid, x |-> st[k].x, s |-> st[k].s, R |-> P!FromCode(st[k].r), tag |-> st[k].tag]]
+SymCase(e, j0) == [ps |-> Parents, n |-> e.n, off |-> e.off, j0 |-> j0]
+SymJudged(e) == /\ e.n \in {1, 2, 4}
+                /\ TagsOK(st)
+                /\ Cardinality({ st[k].sid : k \in DOMAIN st }) = Len(st)        \* parents identified by their number
+RowOfSid(sid) == CHOOSE r \in SeqRange(st) : r.sid = sid
+\* e.post[i] carries, besides the row fields, k (geom2) and parent (geom5) as the call returned them
+SymCountOK(e) == /\ Len(e.post) = e.n * Len(st)
+                 /\ \A i \in DOMAIN e.post : e.post[i].parent \in { st[k].sid : k \in DOMAIN st }
+                 /\ \A k \in DOMAIN st : { e.post[i].k : i \in { i \in DOMAIN e.post : e.post[i].parent = st[k].sid } } = 1..e.n
+                 /\ \A k \in DOMAIN st : Cardinality({ i \in DOMAIN e.post : e.post[i].parent = st[k].sid }) = e.n
+SymIdsOK(e) == Cardinality({ e.post[i].sid : i \in DOMAIN e.post }) = Len(e.post)
+SymInheritOK(e) == \A i \in DOMAIN e.post :
+                      LET p == RowOfSid(e.post[i].parent)
+                      IN  /\ e.post[i].tag = p.tag /\ e.post[i].tomo = p.tomo /\ e.post[i].obj = p.obj
+                          /\ e.post[i].cls = p.cls /\ e.post[i].score = p.score
+SymGeometryOK(e, j0) ==
+    \A i \in DOMAIN e.post :
+       LET o == [parent |-> e.post[i].parent, k |-> e.post[i].k, j |-> (j0 + e.post[i].k - 1) % e.n, sid |-> 0, tag |-> 0]
+           c == SymCase(e, j0)
+           pos == SE!PosX(c, o)
+       IN  /\ e.post[i].r = P!Code(SE!OriX(c, o))
+           /\ \A a \in 1..3 : /\ e.post[i].x[a] + e.post[i].s[a] = pos[a]
+                               /\ e.post[i].x[a] % 8 = 0 /\ 2 * P!Abs(e.post[i].s[a]) <= 8
+SymFailing(e) == IF ~SymCountOK(e) THEN "C10_Count"
+                 ELSE IF ~SymIdsOK(e) THEN "C10_UniqueIds"
+                 ELSE IF ~SymInheritOK(e) THEN "C10_Inherit"
+                 ELSE IF ~(SymGeometryOK(e, 0) \/ SymGeometryOK(e, 1)) THEN "C10_ExactOrbit"
+                 ELSE "none"
+
+\* ---- read-only query on the current state (C08) ------------------------------------------------
+QueryOK(e) ==
+    LET A == SetTable(st) IN
+    /\ e.post = st                                                   \* nothing changed
+    /\ e.which = "split" => S!SplitPartitions(A, e.f, [k \in DOMAIN e.parts |-> SetTable(e.parts[k])])
+    /\ e.which = "unique" => e.uniq = S!DistinctSeq(A, e.f)
+
 ClauseName(e) == CASE e.name = "sg_roundtrip" -> "C04_SharedFieldsSurvive" [] e.name = "relion_roundtrip" -> "C03_RoundTripPose" [] e.name = "subset" -> "C08_SubsetExact" [] e.name = "remove" -> "C08_RemoveComplementsSubset"
                    [] e.name = "intersect" -> "C08_IntersectionExact" [] e.name = "dropdup" -> "C08_DropDupOneBest"
                    [] e.name = "merge_renumber" -> "C08_MergeNumbers" [] e.name = "renumber_particles" -> "C08_ParticlesRenumbered"
@@ -122,6 +235,8 @@ ClauseName(e) == CASE e.name = "sg_roundtrip" -> "C04_SharedFieldsSurvive" [] e.
                    [] e.name = "update" -> "C05_UpdateKeepsComplete" [] e.name = "scale" -> "C05_ScaleMultiplies"
                    [] e.name = "shift" -> "C05_ShiftMovesByOwnOrientation" [] e.name = "rotate" -> "C05_RotateComposes"
                    [] e.name = "flip" -> "C05_FlipMirrors"
+                   [] e.name \in SpatialNames -> "C09_ExactInsideSet" [] e.name = "split" -> "C10_Count"
+                   [] e.name = "query" -> "C08_QueriesCurrent"
 
 \* a row the projection could not map onto the exact domain carries the code <<0,0,0,0,0,0>>; a step that starts
 \* from such a state cannot be judged (it only re-synchronises), a step that produces one is rejected
@@ -130,7 +245,9 @@ Exact(T) == \A k \in DOMAIN T : T[k].r[1] # 0
 Failing(e) ==
     IF ~Exact(st) THEN "none"
     ELSE IF ~Exact(e.post) /\ (\/ (Scope = "pose" /\ e.name \in PoseNames) \/ (Scope = "set" /\ e.name \in SetNames)
-                              \/ (Scope = "sg" /\ e.name = "sg_roundtrip") \/ (Scope = "relion" /\ e.name = "relion_roundtrip"))
+                              \/ (Scope = "sg" /\ e.name = "sg_roundtrip") \/ (Scope = "relion" /\ e.name = "relion_roundtrip")
+                              \/ (Scope = "spatial" /\ e.name \in SpatialNames) \/ (Scope = "sym" /\ e.name = "split" /\ SymJudged(e))
+                              \/ (Scope = "set" /\ e.name = "query"))
     THEN ClauseName(e)
     ELSE IF Scope = "sg" /\ e.name = "sg_roundtrip"
     THEN (IF SgStepOK(e) THEN "none" ELSE ClauseName(e))
@@ -138,6 +255,18 @@ Failing(e) ==
     THEN (IF RelionStepOK(e) THEN "none" ELSE ClauseName(e))
     ELSE IF Scope = "pose" /\ e.name \in PoseNames
     THEN (IF PoseStepOK(e) THEN "none" ELSE ClauseName(e))
+    ELSE IF Scope = "spatial" /\ e.name \in SpatialNames
+    THEN (IF ~SpatialJudged(e) THEN "none"
+          ELSE IF ~e.schema_ok THEN "C09_SurvivorsUntouched"
+          ELSE IF ~SpatialSetOK(e) THEN "C09_ExactInsideSet"
+          ELSE IF ~SpatialUntouched(e) THEN "C09_SurvivorsUntouched"
+          ELSE "none")
+    ELSE IF Scope = "sym" /\ e.name = "split"
+    THEN (IF ~SymJudged(e) THEN "none" ELSE SymFailing(e))
+    ELSE IF Scope = "set" /\ e.name = "query"
+    THEN (IF ~e.schema_ok THEN "C08_Schema"
+          ELSE IF ~QueryOK(e) THEN (IF e.post # st THEN "C08_TagsIntact" ELSE IF e.which = "split" THEN "C08_SplitPartitions" ELSE "C08_QueriesCurrent")
+          ELSE "none")
     ELSE IF Scope = "set" /\ e.name \in SetNames
     THEN (IF ~e.schema_ok THEN "C08_Schema"
           ELSE IF ~Untouched(e) THEN "C08_TagsIntact"
@@ -145,20 +274,34 @@ Failing(e) ==
           ELSE "none")
     ELSE "none"
 
+\* a step whose clauses were really evaluated in this scope, from an exact state to an exact state (the names are
+\* reported with the verdict so that the driver can show that no kind of step is vacuous)
+Judged(e) ==
+    /\ Exact(st) /\ Exact(e.post)
+    /\ \/ Scope = "pose" /\ e.name \in PoseNames
+       \/ Scope = "set" /\ e.name \in SetNames \cup {"query"}
+       \/ Scope = "sg" /\ e.name = "sg_roundtrip"
+       \/ Scope = "relion" /\ e.name = "relion_roundtrip"
+       \/ Scope = "spatial" /\ e.name \in SpatialNames /\ SpatialJudged(e)
+       \/ Scope = "sym" /\ e.name = "split" /\ SymJudged(e)
+
 TraceInit == /\ tid \in 1..Len(Traces)
              /\ l = 1
              /\ st = Traces[tid].init
              /\ saved = Traces[tid].b
              /\ ok = TRUE
              /\ clause = "none"
+             /\ judged = <<>>
 
 TraceNext == /\ ok
              /\ l <= Len(Events)
              /\ LET e == Events[l]
                     c == Failing(e)
-                IN  /\ ok' = (c = "none")
+                IN  /\ judged' = IF Judged(e) THEN Append(judged, e.name) ELSE judged
+                    /\ ok' = (c = "none")
                     /\ clause' = c
-                    /\ st' = e.post
+                    \* after a split the harness re-tags the rows (the row count changed): e.next is that state
+                    /\ st' = IF e.name = "split" THEN e.next ELSE e.post
                     /\ UNCHANGED saved
              /\ l' = l + 1
              /\ UNCHANGED tid
@@ -166,5 +309,5 @@ TraceNext == /\ ok
 TraceSpec == TraceInit /\ [][TraceNext]_vars
 
 Report == \/ (ok /\ l <= Len(Events))
-          \/ PrintT(<<"VERDICT", ToJson([tid |-> tid, ok |-> ok, clause |-> clause, step |-> l - 1])>>)
+          \/ PrintT(<<"VERDICT", ToJson([tid |-> tid, ok |-> ok, clause |-> clause, step |-> l - 1, judged |-> judged])>>)
 =============================================================================
